@@ -22,4 +22,4 @@ prop("C15", level="exploration",
      assumptions=["reference RFC 6901/6902 implementation vlib/ref/pointer_patch_ref.py (pure Python, written from the RFC texts; vlib/ref/selftest_pointer_patch.py)",
                   "documents and patches travel as JSON text: json::parse / ojson::parse and dump() of null/bool/int64/string/array/object are trusted here (judged by C01/C02)",
                   "every patch is applied to a fresh copy of the parsed document inside the driver"],
-     stages=[dict(name="patch", kind="python", module="c15", builds=[("x_ptr", "asan")], ops_quick=300000, pairs_quick=40000, ops_thorough=10000000, pairs_thorough=2000000)])
+     stages=[dict(name="patch", kind="python", module="c15", builds=[("x_ptr", "asan")], ops_quick=300000, pairs_quick=40000, ops_thorough=3000000, pairs_thorough=400000)])
